@@ -71,7 +71,9 @@ DoClone(m) == /\ ~cloned
               /\ c' = ImplClone(o, AllFields \ {m}) /\ sc' = SpecClone(so)
               /\ cloned' = TRUE
               /\ UNCHANGED <<cls, o, so, sync, npre, npost>>
-Post(e, tgt) == /\ cloned /\ npost < MaxPost /\ npre + npost < MaxTotal
+\* (post-edits are explored for the repaired clone; an as-written configuration is judged on the clone
+\* itself and, by the look-ahead of the invariants, on one more edit)
+Post(e, tgt) == /\ cloned /\ npost < MaxPost /\ npre + npost < MaxTotal /\ (miss = "none" \/ Strict)
                 /\ IF tgt \in {"both", "o"} THEN o' = ImplStep(o, e) /\ so' = SpecNext(so, e)
                                             ELSE UNCHANGED <<o, so>>
                 /\ IF tgt \in {"both", "c"} THEN c' = ImplStep(c, e) /\ sc' = SpecNext(sc, e)
